@@ -2,3 +2,4 @@ pub mod dsl;
 pub mod tick;
 pub mod universe;
 pub mod rt;
+pub mod host;
